@@ -209,8 +209,9 @@ where 's: 's // makes 's early-bound so that the generic parameter count matches
 }
 
 macro_rules! segwit_rec {
-    ($name:ident, $n:expr, $total:expr) => {
+    ($name:ident, $n:expr, $total:expr, $unw:literal) => {
         #[kani::proof]
+        #[kani::unwind($unw)] // CBMC does not fold the exit test of the `chars()` loop in Hrp::parse: a bound is needed
         #[kani::stub(super::check_characters, check_characters_contract)]
         #[kani::stub(super::UncheckedHrpstring::validate_checksum, validate_checksum_rec)]
         fn $name() {
@@ -259,7 +260,7 @@ macro_rules! segwit_rec {
 }
 //@ harness: segwit_rec_l69 class=B tier=quick bound="string el1 + 69 lower-case data characters (version, 56 payload, 12 checksum), all contents; check_characters by contract, validate_checksum by recording model" props=C17,C06 timeout=900
 //@ clause: SegwitHrpstring::new at the shortest acceptable blinded length: version > 16 rejected; else validate_checksum is asked exactly once, about ALL data characters (version included, before it is stripped), for Blech32 iff version 0 else Blech32m, CHECKSUM_LENGTH 12; a negative verdict is final; on Ok the version character and the 12 checksum characters are stripped afterwards and the payload is 35..=73 bytes
-segwit_rec!(segwit_rec_l69, 69, 72);
+segwit_rec!(segwit_rec_l69, 69, 72, 75);
 //@ harness: segwit_rec_l98 class=B tier=quick bound="string el1 + 98 lower-case data characters (version, 85 payload = 53 bytes, 12 checksum), all contents; same models" props=C17,C06 timeout=900
 //@ clause: same at the length of a blinded version-0 P2WPKH address (33 + 20 bytes): version 0 is accepted, with the Blech32 variant
-segwit_rec!(segwit_rec_l98, 98, 101);
+segwit_rec!(segwit_rec_l98, 98, 101, 104);
